@@ -93,7 +93,7 @@ func kindName(t *Ty) string {
 }
 
 // CodecCases: for every registered type x preset, valid values (boundary-biased) and malformed derivations.
-func (s *Setup) CodecCases(e *hx.Env, maxBytes int, valuesPer, mutPer int) error {
+func (s *Setup) CodecCases(e *hx.Env, maxBytes int, valuesPer, mutPer int, malformed bool) error {
 	skipped := map[string][]string{}
 	for i := range Registry {
 		ent := &Registry[i]
@@ -127,7 +127,7 @@ func (s *Setup) CodecCases(e *hx.Env, maxBytes int, valuesPer, mutPer int) error
 					continue
 				}
 				s.AddCase(e, ent, pi, enc.B, "valid/"+kindName(t), true)
-				if k >= 1 {
+				if k >= 1 && malformed {
 					nm := mutPer
 					if k == 1 {
 						nm = mutPer / 2
@@ -136,6 +136,9 @@ func (s *Setup) CodecCases(e *hx.Env, maxBytes int, valuesPer, mutPer int) error
 						s.AddCase(e, ent, pi, m.B, "mutated/"+m.Kind, false)
 					}
 				}
+			}
+			if !malformed {
+				continue
 			}
 			// one over-limit value: some limited node gets limit+1 elements
 			probe := NewGen(e.Rng.Fork(), 200)
@@ -225,4 +228,113 @@ func (s *Setup) ReplayCase(e *hx.Env) (bool, error) {
 		}
 	}
 	return false, fmt.Errorf("replay: unknown type %s", c.Type)
+}
+
+// AddLiveCase records the state of a live (mutated) view against its shadow content: the struct form is
+// observed on the shadow's canonical bytes, the "view" verdict is that of the LIVE view (bytes and cached root).
+func (s *Setup) AddLiveCase(e *hx.Env, en *Engine, c LiveCheck, kind string, steps []string) {
+	p := s.Presets[en.PI]
+	obs := Observe(en.Ent, p, c.Expect, false)
+	obs.HasView, obs.ViewRef, obs.ViewPanic = true, false, false
+	obs.ViewSame = c.SameBytes && c.Root == c.FreshRoot && c.Note == ""
+	obs.ViewRoot = c.Root
+	obs.ViewErr = ""
+	key := fmt.Sprintf("live|%s|%d|%x|%x", en.Ent.Name, en.PI, c.Expect, c.Root)
+	if s.Seen[key] {
+		return
+	}
+	s.Seen[key] = true
+	coq := fmt.Sprintf("CSsz p%d \"%s\" \"%s\" %s", en.PI, en.Ent.Name, hex.EncodeToString(c.Expect), obs.Coq(c.Expect))
+	e.Add(hx.Case{Coq: coq, Kind: kind, NonTrivial: true, Key: key,
+		JSON: map[string]interface{}{"type": en.Ent.Name, "preset": p.Name, "preset_index": en.PI, "cfg": p.Cfg,
+			"input": hex.EncodeToString(c.Expect), "input_len": len(c.Expect), "kind": kind, "go": obs.JSON(),
+			"live": c.Name, "program": steps, "live_same_bytes": c.SameBytes, "live_root": hex.EncodeToString(c.Root[:]),
+			"fresh_view_root": hex.EncodeToString(c.FreshRoot[:]), "struct_root": hex.EncodeToString(c.StructRoot[:]), "note": c.Note}})
+}
+
+// MutationPrograms: random programs over tree-backed values of the given types; after every step every live copy
+// is compared with its shadow (bytes, live root, root of a view rebuilt from the bytes, struct-form root).
+// Every inconsistent state, and up to coqCases consistent ones, are handed to the Coq model as cases.
+func (s *Setup) MutationPrograms(e *hx.Env, typeNames []string, presets []int, programs, steps, budget, coqCases int) error {
+	emitted := 0
+	total, inconsistent := 0, 0
+	ops := map[string]int{}
+	for _, tn := range typeNames {
+		var ent *Entry
+		for i := range Registry {
+			if Registry[i].Name == tn {
+				ent = &Registry[i]
+			}
+		}
+		if ent == nil || ent.View == nil {
+			return fmt.Errorf("mutation programs: no registry entry with a view type for %s", tn)
+		}
+		for _, pi := range presets {
+			for k := 0; k < programs; k++ {
+				en, err := NewEngine(s, pi, ent, e.Rng.Fork(), budget)
+				if err != nil {
+					return err
+				}
+				var log []string
+				for st := 0; st < steps; st++ {
+					var desc string
+					var serr error
+					pan, pv := hx.Catch(func() { desc, serr = en.Step() })
+					if pan {
+						desc, serr = "panic", fmt.Errorf("panic during a view operation: %v", pv)
+					}
+					if serr != nil {
+						// an operation the API refused or crashed on: reported as a failing live case
+						log = append(log, "FAILED: "+serr.Error())
+						c := en.Check(en.Lives[0])
+						c.Note += " operation failed: " + serr.Error()
+						c.SameBytes = false
+						s.AddLiveCase(e, en, c, "mutation/op_failed", append([]string(nil), log...))
+						inconsistent++
+						break
+					}
+					log = append(log, desc)
+					ops[strings.Fields(desc)[0]]++
+					for li, l := range en.Lives {
+						c := en.Check(l)
+						total++
+						if !c.Consistent {
+							inconsistent++
+							s.AddLiveCase(e, en, c, "mutation/inconsistent", append([]string(nil), log...))
+						} else if emitted < coqCases && (li == 0 || e.Rng.Intn(3) == 0) && len(c.Expect) <= 3*budget+4000 {
+							emitted++
+							s.AddLiveCase(e, en, c, "mutation/"+strings.Fields(desc)[0], append([]string(nil), log...))
+						}
+					}
+				}
+			}
+		}
+	}
+	// dedicated probe of ComplexListView.Pop (known ztyp finding; zrnt never pops)
+	probes := 0
+	for _, tn := range typeNames {
+		for i := range Registry {
+			if Registry[i].Name != tn || probes >= 3 {
+				continue
+			}
+			for try := 0; try < 6; try++ {
+				en, err := NewEngine(s, presets[0], &Registry[i], e.Rng.Fork(), budget)
+				if err != nil {
+					return err
+				}
+				if desc, ok := en.PopProbe(); ok {
+					c := en.Check(en.Lives[0])
+					if !c.Consistent {
+						s.AddLiveCase(e, en, c, "mutation/complex_list_pop", []string{desc})
+					}
+					probes++
+					break
+				}
+			}
+		}
+	}
+	e.Extra["x_mutation_states_checked_in_go"] = total
+	e.Extra["x_mutation_states_inconsistent"] = inconsistent
+	e.Extra["x_mutation_ops"] = ops
+	return nil
 }
